@@ -230,6 +230,8 @@ func TestRun(t *testing.T) {
 	}
 	wg.Wait()
 	collect()
+	staleGuard(rec, vr.Scale(30, 600))
+	collect()
 	rel, reuse, checked, poisoned := pool.VerifTrackerStats()
 	rec.Count("tracker_releases_observed", rel)
 	rec.Count("tracker_reuses_of_released_objects", reuse)
